@@ -296,13 +296,13 @@ def rule_ctxshape(ctx, prop: str) -> RuleResult:
     BDS = "AAnd(lift_e(_M_s.lo) <= AInt(_M_s.iter), AInt(_M_s.iter) < lift_e(_M_s.hi))"
     f = m.func("ContextExtraction.ctrlp_s")
     res.analysed.append(f"{NE}:{f.qualname}")
-    need(pat.has("_M_p = self.ctrlp_stmts(_M_s.body)\nif _M_p is not None:\n    return AAnd(lift_e(_M_s.cond), _M_p)", f.node), f, "then:cond", "a statement in the then-branch runs under the branch condition")
-    need(pat.has("_M_p = self.ctrlp_stmts(_M_s.orelse)\nif _M_p is not None:\n    return AAnd(ANot(lift_e(_M_s.cond)), _M_p)", f.node), f, "else:not-cond", "a statement in the else-branch runs under the *negated* condition")
+    need(pat.has_seq("_M_p = self.ctrlp_stmts(_M_s.body)\nif _M_p is not None:\n    return AAnd(lift_e(_M_s.cond), _M_p)", f.node), f, "then:cond", "a statement in the then-branch runs under the branch condition")
+    need(pat.has_seq("_M_p = self.ctrlp_stmts(_M_s.orelse)\nif _M_p is not None:\n    return AAnd(ANot(lift_e(_M_s.cond)), _M_p)", f.node), f, "else:not-cond", "a statement in the else-branch runs under the *negated* condition")
     need(pat.has(BDS, f.node), f, "loop:lo<=i<hi", "a statement in a loop body runs under lo <= i < hi")
     f = m.func("ContextExtraction.posteff_s")
     res.analysed.append(f"{NE}:{f.qualname}")
-    need(pat.has("_M_e = self.posteff_stmts(_M_s.body)\nif _M_e is not None:\n    return [E.Guard(lift_e(_M_s.cond), _M_e)]", f.node), f, "post-then:cond", "effects after a statement in the then-branch are guarded by the condition")
-    need(pat.has("_M_e = self.posteff_stmts(_M_s.orelse)\nif _M_e is not None:\n    return [E.Guard(ANot(lift_e(_M_s.cond)), _M_e)]", f.node), f, "post-else:not-cond", "effects after a statement in the else-branch are guarded by the negated condition")
+    need(pat.has_seq("_M_e = self.posteff_stmts(_M_s.body)\nif _M_e is not None:\n    return [E.Guard(lift_e(_M_s.cond), _M_e)]", f.node), f, "post-then:cond", "effects after a statement in the then-branch are guarded by the condition")
+    need(pat.has_seq("_M_e = self.posteff_stmts(_M_s.orelse)\nif _M_e is not None:\n    return [E.Guard(ANot(lift_e(_M_s.cond)), _M_e)]", f.node), f, "post-else:not-cond", "effects after a statement in the else-branch are guarded by the negated condition")
     f = m.func("ContextExtraction.get_control_predicate")
     need(pat.has("AAnd(*[lift_e(_M_p) for _M_p in self.proc.preds])", f.node), f, "preds-assumed", "the procedure's assertions are assumed")
     need(pat.has("AInt(_M_a.name) > AInt(0)", f.node), f, "sizes>0", "size arguments are assumed positive (> 0, not >= 0)")
